@@ -96,6 +96,15 @@ static void check_case(vg::Src& s, vh::Ctx& c)
     for (size_t r = 0; r < rounds; ++r)
     {
         std::vector<double> z = r == 0 ? fc.z : vg::gen_field(s, fc.m);
+        if (r > 0 && s.chance(128))
+        {
+            // new mask / base levels (and sometimes a refused call) between two rounds
+            std::string what = mutate_settings(s, fc, *b.graph, false);
+            c.desc += " |" + what;
+            if (c.verbose)
+                std::cout << "STEP" << what << std::endl;
+            c.label("settings-changed-between-rounds");
+        }
         b.graph->update_routes(z);
         check_basins(c, fc, *b.graph, "round#" + std::to_string(r + 1));
         if (s.coin())
